@@ -4,6 +4,8 @@ from .vals import (SV, Char, Opaque, Cell, Unsupported, INT, BOOL, REAL, STR, AS
                    TRef, TMap, TSet, sort_of, alen, aat, ExcValue)
 from .strenc import StrOps, is_str
 
+BIRTH = z3.Function("birth", z3.IntSort(), z3.IntSort())   # allocation time of an object reference
+
 
 class Infeasible(Exception):
     pass
@@ -92,6 +94,7 @@ class Ctx:
         self.dead = False
         self.effects = None     # ghost effect trace (list cell) when the contract uses one
         self.frame_violations = []
+        self.now = z3.IntVal(0)   # allocation clock: entry objects have birth < 0, objects allocated later birth >= 0
         self.hints = []         # terms scanned for recursive-spec-function applications to unfold (never asserted)
 
     # ---- naming / assumptions --------------------------------------------
@@ -114,11 +117,15 @@ class Ctx:
             self.assume(alen(v.t) >= 0)
         elif ty.name == "List":
             sv = v.sym if isinstance(v, Cell) else v
-            self.assume(sort_of(ty).len(sv.t) >= 0)
-            if ty.args[0] == ASTR:
-                pass
+            s = sort_of(ty)
+            self.assume(s.len(sv.t) >= 0)
+            if ty.args[0].name == "Ref":
+                # every object stored in an existing list was allocated before now (so it differs from later allocations)
+                k = z3.Int(self.fresh_name("k"))
+                e = z3.Select(s.data(sv.t), k)
+                self.assume(z3.ForAll([k], z3.Implies(z3.And(0 <= k, k < s.len(sv.t)), BIRTH(e) < self.now), patterns=[e]))
         elif ty.name == "Ref":
-            self.assume(v.t >= 1)
+            self.assume(BIRTH(v.t) < self.now)
 
     def assume(self, f):
         if self.guards:
